@@ -208,6 +208,7 @@ func runDataChurn(t tfail, rec *ev.Recorder, p dataPlan) (r *simRing, res *dataR
 		MaxDelay:   time.Duration(p.Churn.MaxDelay) * time.Microsecond,
 		DelayProb:  float64(p.Churn.DelayPct) / 100,
 		NewKV:      newKV,
+		Logger:     churnLogger(p.Churn),
 		SlowMethod: "Finish*", SlowArg: "release", SlowDelay: time.Duration(p.Churn.SlowReleaseMs) * time.Millisecond,
 	}), members: map[uint64]*ringsim.Member{}}
 	cleanup = func() { r.net.Close(); rmDirs() }
@@ -370,6 +371,9 @@ func TestC03(t *testing.T) {
 			}
 		}
 		labels := []string{fmt.Sprintf("indeterminate-keys:%d", indet)}
+		if p.Churn.LogJitterPct > 0 {
+			labels = append(labels, "log-jitter")
+		}
 		if res.churn.JoinLeaveConcurrent {
 			labels = append(labels, "join||leave")
 		}
@@ -505,7 +509,7 @@ func TestC05(t *testing.T) {
 		_, moved := transfersMoved(r)
 		nt := nodesWithData >= 2 && len(moved) > 0
 		doc := map[string]any{"plan": p, "churn_log": res.churn.Log, "members_at_end": ids, "holders": holders, "moved_keys": moved}
-		rec.Case(nt, fmt.Sprintf("%+v", p), func() any { return doc }, fmt.Sprintf("nodes-with-data:%d", nodesWithData), fmt.Sprintf("members:%d", len(ids)))
+		rec.Case(nt, fmt.Sprintf("%+v", p), func() any { return doc }, fmt.Sprintf("nodes-with-data:%d", nodesWithData), fmt.Sprintf("members:%d", len(ids)), fmt.Sprintf("log-jitter:%v", p.Churn.LogJitterPct > 0))
 		if n := r.net.Panics.Load(); n > 0 {
 			rec.Fail(t, "handler-panic-during-churn", map[string]any{"plan": p, "panic": r.net.PanicLog[0]}, "handler panicked during churn: %s", firstLine(r.net.PanicLog[0]))
 		}
